@@ -151,6 +151,7 @@ func cmdCheck(args []string) {
 	var vios []vref
 	leavesByDir := map[string][]Leaf{}
 	cover := map[string]int{}
+	assumed := map[string]int{}
 	fnSteps := map[string]int{}
 	fnBranches := map[string]int{}
 	var scripts, answers []string
@@ -197,6 +198,9 @@ func cmdCheck(args []string) {
 				if len(scripts) < 60 {
 					scripts = append(scripts, st.Scripts...)
 					answers = append(answers, st.ScriptAnswer...)
+				}
+				for k, n := range st.Assumed {
+					assumed[k] += n
 				}
 				for msg, n := range st.EngineErrs {
 					inconclusive = append(inconclusive, fmt.Sprintf("%s(%d): engine error x%d: %s", st.Entry, st.Arg, n, msg))
@@ -397,6 +401,7 @@ func cmdCheck(args []string) {
 			"required_cover_points":   spec.covers,
 			"violations_replayed":     len(vios),
 			"inconclusive":            inconclusive,
+			"implicit_restrictions":   assumed,
 			"ssa_load_build_s":        round2(l.loadDur.Seconds()),
 			"workers":                 *workers,
 		},
